@@ -414,8 +414,10 @@ func SetSlice(dest reflect.Value, objects interface{}) error {
 		h.add(dest)
 		// a reference to a list that is already complete is never notified
 		// again: take the value the holder has now
-		if cv, err := ConvertSliceValueType(destTyp, h.value); err == nil && cv.IsValid() {
-			SetValue(dest, cv)
+		if h.value.IsValid() {
+			if cv, err := ConvertSliceValueType(destTyp, h.value); err == nil && cv.IsValid() {
+				SetValue(dest, cv)
+			}
 		}
 		return nil
 	}
